@@ -3,7 +3,6 @@
 P=$1; IDS=$2
 cd /repo || exit 2
 if [ -n "$(git status --porcelain)" ]; then echo "/repo not clean"; exit 2; fi
-git apply --3way "$P" 2>/dev/null || git apply "$P" || { echo "patch does not apply"; exit 3; }
-git reset -q 2>/dev/null
+git apply "$P" 2>/dev/null || { git apply --3way "$P" >/dev/null 2>&1 && git reset -q; } || { git reset -q --hard HEAD; echo "patch does not apply"; exit 3; }
 cd /verif && ./check "$IDS" quick | grep -E "VIOLATION|KNOWN|: C[0-9]+\.|obligations"
-cd /repo && git checkout -- . && git status --porcelain | head -3
+cd /repo && git reset -q --hard HEAD && git status --porcelain | head -3
